@@ -54,4 +54,90 @@ theorem scanNul_spec (len : Nat) : ∀ (rest : List Nat) (ind : Nat), len = ind 
       · right; left; exact ⟨h1, b :: pre, by simp [h2], by simp [h3, hb']⟩
       · right; right; exact ⟨h1, b :: pre, post, by simp [h2], by simp [h3, hb'], h4⟩
 
+
+/-! ## accessors -/
+
+theorem idx_lt {l : List Nat} {i : Nat} (h : i < l.length) : idx l i = .ok l[i] := by
+  simp [idx, List.getElem?_eq_getElem h]
+
+theorem rd_lt {l : List Nat} {i : Nat} (h : i < l.length) : rd l i = .ok l[i] := by
+  simp [rd, List.getElem?_eq_getElem h]
+
+@[simp] theorem bind_ok {α β : Type} (a : α) (f : α → R β) : (R.ok a).bind f = f a := rfl
+
+theorem sub_le {a b : Nat} (h : b ≤ a) : sub a b = .ok (a - b) := by simp [sub, h]
+
+/-! ## const validator -/
+
+theorem constLoop_eq (s : List Nat) : ∀ i, i ≤ s.length →
+    constLoop s i = if 0 ∈ s.take i then .panic else .ok ()
+  | 0, _ => by simp [constLoop]
+  | i + 1, h => by
+    have hi : i < s.length := by omega
+    rw [constLoop, idx_lt hi, bind_ok, constLoop_eq s i (by omega), ← List.take_append_getElem hi]
+    by_cases hb : s[i] = 0
+    · simp [hb]
+    · have : ¬ (0 = s[i]) := fun h => hb h.symm
+      simp [hb, this]
+
+theorem constValidate_snoc (c : List Nat) (b : Nat) :
+    constValidate (c ++ [b]) = if b = 0 ∧ 0 ∉ c then .ok () else .panic := by
+  have hlen : (c ++ [b]).length = c.length + 1 := by simp
+  have hidx : idx (c ++ [b]) c.length = .ok b := by
+    rw [idx_lt (by simp)]; simp
+  unfold constValidate
+  rw [hlen, sub_le (by omega)]
+  simp only [bind_ok, Nat.add_sub_cancel, hidx]
+  by_cases hb : b = 0
+  · subst hb
+    rw [constLoop_eq _ _ (by simp)]
+    simp
+  · simp [hb]
+
+/-! ## ensureNul / from_format -/
+
+theorem ensureNul_nulfree {p : List Nat} (h : 0 ∉ p) : ensureNul p = p ++ [0] := by
+  unfold ensureNul
+  split
+  · rename_i hl
+    obtain ⟨ys, rfl⟩ := List.getLast?_eq_some_iff.1 hl
+    simp at h
+  · rfl
+
+theorem ensureNul_terminated (c : List Nat) : ensureNul (c ++ [0]) = c ++ [0] := by
+  simp [ensureNul]
+
+/-! ## buf_strlen / file_unix_name -/
+
+theorem bufStrlenLoop_spec : ∀ (buf : List Nat) (ind : Nat),
+    (0 ∉ buf ∧ bufStrlenLoop ind buf = .err .noterm) ∨
+    (∃ pre post, buf = pre ++ 0 :: post ∧ 0 ∉ pre ∧ bufStrlenLoop ind buf = .ok (ind + pre.length))
+  | [], ind => by simp [bufStrlenLoop]
+  | b :: rest, ind => by
+    by_cases hb : b = 0
+    · subst hb
+      right; exact ⟨[], rest, by simp, by simp, by simp [bufStrlenLoop]⟩
+    · have hb' : ¬ (0 = b) := fun h => hb h.symm
+      rcases bufStrlenLoop_spec rest (ind + 1) with ⟨h1, h2⟩ | ⟨pre, post, h1, h2, h3⟩
+      · left; exact ⟨by simp [h1, hb'], by simp [bufStrlenLoop, hb, h2]⟩
+      · right
+        refine ⟨b :: pre, post, by simp [h1], by simp [h2, hb'], ?_⟩
+        simp only [bufStrlenLoop, hb, if_false, h3, List.length_cons]
+        congr 1; omega
+
+theorem fileUnixName_spec (buf : List Nat) :
+    (0 ∉ buf ∧ fileUnixName buf = .err .noterm) ∨
+    (∃ pre post, buf = pre ++ 0 :: post ∧ 0 ∉ pre ∧ fileUnixName buf = .ok (pre ++ [0])) := by
+  rcases bufStrlenLoop_spec buf 0 with ⟨h1, h2⟩ | ⟨pre, post, h1, h2, h3⟩
+  · left; exact ⟨h1, by simp [fileUnixName, bufStrlen, h2, R.bind]⟩
+  · right
+    refine ⟨pre, post, h1, h2, ?_⟩
+    subst h1
+    simp only [fileUnixName, bufStrlen, h3, bind_ok, Nat.zero_add]
+    have : pre.length + 1 ≤ (pre ++ 0 :: post).length := by simp; omega
+    simp only [this, if_true]
+    congr 1
+    rw [List.take_append]
+    simp
+
 end TinyVerif.UnixStr
